@@ -46,7 +46,8 @@ class C08(Prop):
         return st.one_of(api, api, api, st.fixed_dictionaries({"reader": rd, "via_clone": st.booleans()}))
 
     def fixed_cases(self, tier):
-        return gen_ir.example_cases(tier)
+        stress = [dict(r, with_ids=False, via_clone=False) for _, r in sorted(gen_ir.stress_recipes().items())]
+        return stress + gen_ir.example_cases(tier)
 
     def run(self, case):
         import spydrnet.uniquify as U
